@@ -82,6 +82,8 @@ func (c *typeDefFirstChecker) receiverType(e ast.Expr) string {
 		return c.receiverType(e.X)
 	case *ast.IndexListExpr:
 		return c.receiverType(e.X)
+	case *ast.ParenExpr:
+		return c.receiverType(e.X)
 	default:
 		panic("unreachable")
 	}
